@@ -265,7 +265,6 @@ CASES = [
 def measure(m, call, a, b, n, vals=None):
     pad = [a] * PAD + [b] * PAD
     outs = []
-    gc.collect()
     base = (sys.getrefcount(a), sys.getrefcount(b))
     for _ in range(n):
         try:
@@ -278,8 +277,10 @@ def measure(m, call, a, b, n, vals=None):
         r = None
         if out not in outs:
             outs.append(out)
-    gc.collect()
     delta = (sys.getrefcount(a) - base[0], sys.getrefcount(b) - base[1])
+    if delta != (0, 0):      # garbage cycles may still hold references: collect and look again
+        gc.collect()
+        delta = (sys.getrefcount(a) - base[0], sys.getrefcount(b) - base[1])
     if min(delta) < 0:
         KEEP.append(pad)   # over-released: never drop the padding, the object must not reach zero
     del pad
